@@ -36,6 +36,7 @@
 #include <condition_variable>
 #include <csignal>
 #include <cstdlib>
+#include <map>
 #include <memory>
 #include <mutex>
 #include <thread>
@@ -1550,6 +1551,415 @@ void runPlan(const Plan &p, pbt::Case &c)
 }
 
 
+
+// ------------------------------------------------------------- sequence of connections
+// 2-4 consecutive raw-peer connections to ONE listening transport, so that the engine's fd numbers
+// are reused from one session to the next. Connection k ends by peer FIN / peer RST / app close;
+// on connection k+1 the PEER speaks first while the application issues no command at all in
+// between (or, in the variant, the application sends first). Per connection the oracle is the one
+// of runPlan: reverse stream equals what the peer wrote, forward payloads arrive exactly, an end
+// on the wire is followed by onClose, and bytes that are never delivered while nothing is in
+// flight are a stall (bounded wait, observed slices, engine-attributable by queue lengths).
+struct SeqConn
+{
+  std::vector<std::uint32_t> peerChunks; // written by the peer, in this order
+  bool appFirst = false;                 // the application sends its first payload before the peer writes
+  std::vector<std::uint32_t> appPayloads;
+  int end = EndPeerFin;
+  std::uint32_t gapUs = 0; // pause before the next connection
+};
+struct SeqPlan
+{
+  bool et = true, batching = true, hires = true;
+  std::size_t readChunk = 65536;
+  std::uint32_t salt = 0;
+  std::vector<SeqConn> conns;
+  std::vector<c01net::Step> rdFaults;
+};
+
+std::string describe(const SeqPlan &p)
+{
+  pbt::Fmt f;
+  f << "seq: TCP iora=listener " << (p.et ? "ET" : "LT") << (p.batching ? " batching" : "") << (p.hires ? "" : " noHiresTimers") << " readChunk=" << p.readChunk
+    << " salt=" << p.salt << " conns=[";
+  for (std::size_t k = 0; k < p.conns.size(); ++k)
+  {
+    const SeqConn &cn = p.conns[k];
+    f << (k ? " ; " : "") << (cn.appFirst ? "app-first " : "peer-first ") << "peer{";
+    for (std::size_t i = 0; i < cn.peerChunks.size(); ++i) f << (i ? "," : "") << cn.peerChunks[i];
+    f << "} app{";
+    for (std::size_t i = 0; i < cn.appPayloads.size(); ++i) f << (i ? "," : "") << cn.appPayloads[i];
+    f << "} end=" << (cn.end == EndPeerFin ? "peerFIN" : cn.end == EndPeerRst ? "peerRST" : "appClose") << " gap=" << cn.gapUs << "us";
+  }
+  f << "] rdFaults=[";
+  for (std::size_t i = 0; i < p.rdFaults.size(); ++i) f << (i ? "," : "") << stepStr(p.rdFaults[i]);
+  f << "]";
+  return f.str();
+}
+
+SeqPlan drawSeq(pbt::Src &src)
+{
+  SeqPlan p;
+  p.et = !src.coin(1, 3);
+  p.batching = src.coin(1, 2);
+  p.hires = !src.coin(1, 6);
+  p.readChunk = src.oneOf<std::size_t>({7, 512, 65536, 65536});
+  p.salt = static_cast<std::uint32_t>(src.range(0, 0x7fffffff));
+  std::size_t n = static_cast<std::size_t>(src.range(2, 4));
+  for (std::size_t k = 0; k < n; ++k)
+  {
+    SeqConn cn;
+    cn.appFirst = src.coin(1, 4);
+    cn.end = static_cast<int>(src.oneOf<int>({EndPeerFin, EndPeerFin, EndPeerRst, EndPeerRst, EndAppClose}));
+    cn.gapUs = src.oneOf<std::uint32_t>({0, 0, 300, 2500});
+    std::size_t cap = p.readChunk == 7 ? 4000 : 40000, tot = 0;
+    for (auto &r : src.rows(5, 1, 0, 1 << 20))
+    {
+      static const std::uint32_t mod[] = {1, 16, 1500, 20000};
+      std::uint32_t sz = 1 + static_cast<std::uint32_t>(r[0] >> 2) % mod[r[0] & 3];
+      if (tot + sz > cap) sz = 1 + sz % 7;
+      tot += sz;
+      cn.peerChunks.push_back(sz);
+    }
+    if (cn.peerChunks.empty()) cn.peerChunks.push_back(1 + p.salt % 300);
+    for (auto &r : src.rows(3, 1, 0, 1 << 20)) cn.appPayloads.push_back(1 + static_cast<std::uint32_t>(r[0]) % 5000);
+    if (cn.appFirst && cn.appPayloads.empty()) cn.appPayloads.push_back(17);
+    p.conns.push_back(std::move(cn));
+  }
+  for (auto &r : src.rows(8, 2, 0, 1 << 20)) p.rdFaults.push_back(drawStep(r, false));
+  return p;
+}
+
+void runSeq(const SeqPlan &p, pbt::Case &c)
+{
+  oncePerProcess();
+  c.describe(describe(p));
+  pbt::watchdog(150, "C01/case-hung");
+  c01net::reset();
+  c01net::harnessThread(true);
+  c01net::arm(true);
+  c01net::setStreamReadScript(p.rdFaults);
+
+  struct St
+  {
+    std::mutex mu;
+    std::condition_variable cv;
+    std::atomic<int> expectPort{-1};
+    std::map<net::SessionId, std::vector<std::uint8_t>> D;
+    std::map<net::SessionId, int> closed; // sid -> close code
+    std::vector<std::pair<net::SessionId, std::uint16_t>> accepts; // (sid, remote port)
+    unsigned foreign = 0;
+    std::uint64_t ticks = 0;
+  };
+  auto st = std::make_shared<St>();
+  net::TransportConfig cfg;
+  cfg.useEdgeTriggered = p.et;
+  cfg.batching.enabled = p.batching;
+  cfg.ioReadChunk = p.readChunk;
+  cfg.enableHighResolutionTimers = p.hires;
+  auto t = net::Transport::tcp(cfg);
+  t->onAccept([st](net::SessionId sid, const net::TransportAddress &a) {
+    std::lock_guard<std::mutex> lk(st->mu);
+    st->accepts.emplace_back(sid, a.port);
+    ++st->ticks;
+    st->cv.notify_all();
+  });
+  t->onData([st](net::SessionId sid, iora::core::BufferView d, std::chrono::steady_clock::time_point) {
+    std::lock_guard<std::mutex> lk(st->mu);
+    auto &v = st->D[sid];
+    v.insert(v.end(), d.data(), d.data() + d.size());
+    ++st->ticks;
+    st->cv.notify_all();
+  });
+  t->onClose([st](net::SessionId sid, const net::TransportErrorInfo &why) {
+    std::lock_guard<std::mutex> lk(st->mu);
+    st->closed.emplace(sid, static_cast<int>(why.code));
+    ++st->ticks;
+    st->cv.notify_all();
+  });
+  t->onError([](net::TransportError, const std::string &) {});
+  if (t->start().isErr())
+  {
+    c.inconclusive("transport start failed");
+    return;
+  }
+  int fd = -1;
+  auto teardown = [&] {
+    if (fd >= 0) rawpeer::reset(fd);
+    fd = -1;
+    t->stop();
+    t.reset();
+    c01net::arm(false);
+  };
+  auto lr = t->addListener("127.0.0.1", 0, net::TlsMode::None);
+  std::uint16_t port = lr.isOk() ? t->getListenerAddress(lr.value()).port : 0;
+  if (!port)
+  {
+    c.inconclusive("addListener failed");
+    teardown();
+    return;
+  }
+  auto sockOutq = [](int f) -> long {
+    int v = 0;
+    if (f < 0 || ::ioctl(f, SIOCOUTQ, &v) != 0) return -1;
+    return v;
+  };
+  auto sockInq = [](int f) -> long {
+    int v = 0;
+    if (f < 0 || ::ioctl(f, FIONREAD, &v) != 0) return -1;
+    return v;
+  };
+  // wait until done(); the stall clock runs only in observed slices while owes() names a step the
+  // engine owes. 0 = done, 1 = stall (what filled), 2 = too slow (inconclusive)
+  auto waitEngine = [&](const std::function<bool()> &done, const std::function<std::string()> &owes, std::string &what) -> int {
+    auto t0 = Clock::now(), lastIter = t0;
+    std::int64_t quiet = 0;
+    std::uint64_t lastTicks = ~0ULL, lastAct = ~0ULL;
+    std::unique_lock<std::mutex> lk(st->mu);
+    for (;;)
+    {
+      if (done()) return 0;
+      auto now = Clock::now();
+      std::int64_t dt = std::chrono::duration_cast<std::chrono::milliseconds>(now - lastIter).count();
+      lastIter = now;
+      std::uint64_t act = c01net::activity();
+      std::string o = owes();
+      if (st->ticks != lastTicks || act != lastAct || o.empty())
+      {
+        lastTicks = st->ticks;
+        lastAct = act;
+        quiet = 0;
+        if (msSince(t0) > kCaseCapMs) return 2;
+      }
+      else
+      {
+        quiet += std::min<std::int64_t>(dt, kSliceMs);
+        if (quiet > kStallMs)
+        {
+          what = o;
+          return 1;
+        }
+      }
+      st->cv.wait_for(lk, std::chrono::milliseconds(o.empty() ? 5 : 20));
+    }
+  };
+
+  std::vector<std::uint8_t> W, pay, got;
+  int lastEfd = -1;
+  bool fdReused = false, peerFirstAfterPeerEnd = false;
+  int prevEnd = -1;
+  for (std::size_t k = 0; k < p.conns.size() && !c.failed(); ++k)
+  {
+    const SeqConn &cn = p.conns[k];
+    pbt::Fmt where;
+    where << "connection " << k + 1 << " of " << p.conns.size() << ": ";
+    fd = rawpeer::tcpConnectFrom(port, 0, 0, [&](std::uint16_t lp) { st->expectPort.store(lp); });
+    if (fd < 0)
+    {
+      c.inconclusive("raw peer could not connect");
+      break;
+    }
+    const int myPort = st->expectPort.load();
+    net::SessionId sid = 0;
+    {
+      std::unique_lock<std::mutex> lk(st->mu);
+      bool ok = st->cv.wait_for(lk, std::chrono::milliseconds(kSetupMs), [&] {
+        for (auto &a : st->accepts)
+          if (a.second == myPort) return true;
+        return false;
+      });
+      if (!ok)
+      {
+        lk.unlock();
+        c.inconclusive("connection was not announced within the setup bound");
+        break;
+      }
+      for (auto &a : st->accepts)
+        if (a.second == myPort) sid = a.first;
+    }
+    const int efd = c01net::lastEngineStreamFd();
+    if (lastEfd >= 0 && efd == lastEfd) fdReused = true;
+    lastEfd = efd;
+    if (!cn.appFirst && k > 0 && (prevEnd == EndPeerFin || prevEnd == EndPeerRst)) peerFirstAfterPeerEnd = true;
+
+    // ---- forward payload helper
+    std::size_t appIdx = 0;
+    auto doApp = [&](std::size_t idx) -> bool {
+      makePayload(pay, p.salt, static_cast<unsigned>(k & 3), static_cast<unsigned>(idx), cn.appPayloads[idx]);
+      if (!t->send(sid, iora::core::BufferView{pay.data(), pay.size()})) return true; // not accepted: nothing owed
+      got.assign(pay.size(), 0);
+      std::size_t have = 0;
+      std::int64_t quiet = 0;
+      while (have < pay.size())
+      {
+        int r = rawpeer::readSome(fd, got.data() + have, pay.size() - have, kSliceMs);
+        if (r > 0)
+        {
+          have += static_cast<std::size_t>(r);
+          quiet = 0;
+          continue;
+        }
+        if (r != rawpeer::RP_TIMEOUT) break; // EOF / reset: the session ended, prefix rule
+        bool closedNow;
+        {
+          std::lock_guard<std::mutex> lk(st->mu);
+          closedNow = st->closed.count(sid) != 0;
+        }
+        if (closedNow) break;
+        if (sockOutq(efd) == 0 && sockInq(fd) == 0) quiet += kSliceMs;
+        else quiet = 0;
+        if (quiet > kStallMs)
+        {
+          pbt::Fmt f;
+          f << where.str() << "payload " << idx << " of " << pay.size() << " bytes: the peer received " << have << " bytes and nothing more for " << kStallMs
+            << " ms although nothing is in flight; session open";
+          c.failTimed("C01/stall", f.str());
+          return false;
+        }
+      }
+      if (have && std::memcmp(got.data(), pay.data(), have) != 0)
+      {
+        c.fail("C01/stream-mismatch", where.str() + "the peer received bytes that differ from payload " + std::to_string(idx));
+        return false;
+      }
+      return true;
+    };
+    if (cn.appFirst && !cn.appPayloads.empty())
+    {
+      if (!doApp(appIdx++)) break;
+    }
+    // ---- the peer writes its chunks (small enough to fit the socket buffers without a reader)
+    std::size_t total = 0;
+    for (auto x : cn.peerChunks) total += x;
+    W.resize(total);
+    fillBytes(W.data(), W.size(), (std::uint64_t(p.salt) << 20) ^ (0x5E0ULL + k));
+    std::size_t off = 0;
+    bool wrOk = true;
+    for (auto x : cn.peerChunks)
+    {
+      std::size_t done = 0;
+      while (done < x)
+      {
+        int w = rawpeer::writeSome(fd, W.data() + off + done, x - done, 2000);
+        if (w <= 0)
+        {
+          wrOk = false;
+          break;
+        }
+        done += static_cast<std::size_t>(w);
+      }
+      off += done;
+      if (!wrOk) break;
+    }
+    const std::size_t written = off;
+    // ---- everything the peer wrote must be delivered on THIS session
+    {
+      std::string what;
+      int rc = waitEngine([&] { return st->D[sid].size() >= written || st->closed.count(sid); },
+                          [&]() -> std::string {
+                            long eiq = sockInq(efd), poq = sockOutq(fd);
+                            if (eiq > 0) return std::to_string(eiq) + " unread bytes wait in the engine's socket";
+                            if (eiq == 0 && poq == 0) return "the engine has read everything the peer wrote but has not delivered it";
+                            return "";
+                          },
+                          what);
+      std::vector<std::uint8_t> D;
+      bool closedNow;
+      {
+        std::lock_guard<std::mutex> lk(st->mu);
+        D = st->D[sid];
+        closedNow = st->closed.count(sid) != 0;
+      }
+      if (D.size() > written || (!D.empty() && std::memcmp(D.data(), W.data(), D.size()) != 0))
+      {
+        c.fail("C01/rx-mismatch", where.str() + "onData delivered " + std::to_string(D.size()) + " bytes that are not a prefix of the " + std::to_string(written) + " bytes the peer wrote");
+        break;
+      }
+      if (rc == 2)
+      {
+        c.inconclusive("kernel-level slowness: the case was still moving after the case time cap");
+        break;
+      }
+      if (rc == 1)
+      {
+        pbt::Fmt f;
+        f << where.str() << (cn.appFirst ? "" : "the peer spoke first, no command was issued on this connection; ") << "no engine activity for " << kStallMs << " ms although " << what
+          << ": onData delivered " << D.size() << " of " << written << " bytes written by the peer, session open (no onClose)"
+          << (k > 0 ? std::string(", previous connection ended by ") + (prevEnd == EndPeerFin ? "peer FIN" : prevEnd == EndPeerRst ? "peer RST" : "app close") : std::string())
+          << ", engine fd " << efd << (fdReused ? " (number reused)" : "");
+        c.failTimed("C01/stall", f.str());
+        break;
+      }
+      if (closedNow && D.size() < written) c.label("seq: session closed before everything was delivered");
+    }
+    // ---- remaining forward payloads
+    bool ok = true;
+    while (ok && appIdx < cn.appPayloads.size()) ok = doApp(appIdx++);
+    if (!ok) break;
+    // ---- end of this connection
+    if (cn.end == EndPeerFin) rawpeer::fin(fd);
+    else if (cn.end == EndPeerRst)
+    {
+      rawpeer::reset(fd);
+      fd = -1;
+    }
+    else
+      t->close(sid);
+    {
+      std::string what;
+      int rc = waitEngine([&] { return st->closed.count(sid) != 0; },
+                          [&]() -> std::string { return cn.end == EndAppClose ? "" : "the connection ended on the wire, onClose is owed"; }, what);
+      if (rc == 1)
+      {
+        c.failTimed("C01/ended-without-onclose", where.str() + "the peer ended the connection (" + (cn.end == EndPeerFin ? "FIN" : "RST") + ") and no onClose followed for " +
+                                                  std::to_string(kStallMs) + " ms");
+        break;
+      }
+      if (rc == 2)
+      {
+        c.inconclusive("onClose did not arrive in time after close()");
+        break;
+      }
+    }
+    if (fd >= 0)
+    {
+      // the engine has closed: the peer sees the end (bounded, no verdict), then gives the fd back
+      char b[256];
+      auto t0 = Clock::now();
+      while (msSince(t0) < kDrainAfterCloseMs)
+      {
+        int r = rawpeer::readSome(fd, b, sizeof b, 50);
+        if (r == 0 || r == rawpeer::RP_ERROR) break;
+      }
+      rawpeer::reset(fd);
+      fd = -1;
+    }
+    prevEnd = cn.end;
+    if (cn.gapUs) std::this_thread::sleep_for(std::chrono::microseconds(cn.gapUs));
+  }
+  // data on a session nobody opened
+  bool strayData = false;
+  {
+    std::lock_guard<std::mutex> lk(st->mu);
+    for (auto &kv : st->D)
+    {
+      bool known = false;
+      for (auto &a : st->accepts)
+        if (a.first == kv.first) known = true;
+      if (!known && !kv.second.empty()) strayData = true;
+    }
+  }
+  c01net::Counters cnt = c01net::counters();
+  teardown();
+  if (strayData && !c.failed()) c.fail("C01/data-on-foreign-session", "onData on a session id that was never announced");
+  c.label("seq: connections " + std::to_string(p.conns.size()));
+  c.label(p.et ? "edge-triggered" : "level-triggered");
+  if (p.batching) c.label("batching on");
+  if (fdReused) c.label("seq: engine fd number reused by the next session");
+  if (peerFirstAfterPeerEnd) c.label("seq: peer spoke first after a peer-initiated close, no command in between");
+  if (cnt.rdCutInj) c.label("injected short read");
+}
+
 // ------------------------------------------------------------------ exhaustive cut tier
 // One plain-TCP connection; for two payloads of l1 and l2 bytes (<= 64) EVERY behaviour of the
 // first and of the second engine write is enumerated: pass, EAGAIN, cut after k bytes for every
@@ -1840,6 +2250,12 @@ void runCuts(const CutsPlan &p, pbt::Case &c)
 
 PBT_PROPERTY(stream)
 {
+  if (src.coin(1, 6))
+  {
+    SeqPlan sp = drawSeq(src);
+    runSeq(sp, c);
+    return;
+  }
   Plan p = drawPlan(src, false);
   runPlan(p, c);
 }
@@ -1952,6 +2368,27 @@ PBT_REGRESSION(sync_mode_polling_reader_sees_every_byte)
   p.peerWrites = {IoStep{100, 2000}, IoStep{1, 2000}, IoStep{3000, 600}, IoStep{7, 2000}, IoStep{20000, 2000}, IoStep{5, 2000}, IoStep{64, 0}};
   p.rdFaults = {{c01net::CUT_ABS, 1}, {c01net::CUT_ABS, 50}, {c01net::PASS, 0}, {c01net::CUT_END, 1}};
   runPlan(p, c);
+}
+
+// consecutive connections on one batching transport: the fd number of a session closed by the peer is
+// reused by the next session, on which the peer speaks first and the application issues no command
+// (seeded change C01-H kept the closed number marked stale until the next command batch)
+PBT_REGRESSION(seq_fd_reuse_after_peer_close_peer_speaks_first)
+{
+  SeqPlan p;
+  p.batching = true;
+  p.salt = 11;
+  SeqConn a, b, d;
+  a.peerChunks = {100};
+  a.end = EndPeerFin;
+  b.peerChunks = {1, 2000, 7};
+  b.end = EndPeerRst;
+  b.gapUs = 2500;
+  d.peerChunks = {300};
+  d.appPayloads = {40, 4000};
+  d.end = EndAppClose;
+  p.conns = {a, b, d, a};
+  runSeq(p, c);
 }
 
 PBT_REGRESSION(four_senders_small_queue_backpressure_close)
